@@ -20,7 +20,7 @@ ID = 'C09'
 RULE = ('cases = edit/solve histories over a ~25-letter alphabet (assign / element / slice / slice-of-slice / in-place-op on boundary '
         'coefficients, fixedValue, fixedGradient, newtonCooling, defaultNoFlux, periodic on/off one side or both, .value assign / '
         'slice-assign / op-assign, update_value, copy, arithmetic, funceval, sharing a BC object, apply_BCs, solvePDE, solveExplicitPDE '
-        '(continuing with the returned variable)) on up to 3 live variables: ALL histories up to depth k over a reduced alphabet '
+        '(continuing with the returned variable, or keeping the input variable alive as well)) on up to 3 live variables: ALL histories up to depth k over a reduced alphabet '
         'on Grid1D(3) (k=3 quick, 4 thorough) and depth 2 on one small grid of every other class, random histories of length 5..25 '
         'on all 9 classes; every history ends with a solve of every live variable; non-trivial = history contains an edit letter '
         'and a solve; distinct by the letter sequence with arguments abstracted to kinds')
@@ -140,6 +140,14 @@ class World:
         rhs = -pf.divergenceTerm(uf * pf.upwindMean(phi, uf) - Df * pf.gradientTerm(phi)) \
             + pf.convectionTVDupwindRHSTerm(uf, phi, pf.fluxLimiter('MinMod'))
         return pf.solveExplicitPDE(phi, c['dte'], rhs)
+
+    def explicit_local(self, phi):
+        """explicit step with a cell-local right-hand side (source - sink*phi): reads no ghost values, so no apply_BCs() call is
+        owed by the caller and the dirty-state handling is entirely solveExplicitPDE's own"""
+        c = self.coef
+        m = self.m
+        rhs = pf.constantSourceTerm(pf.CellVariable(m, c['gamma'])) - pf.linearSourceTerm(pf.CellVariable(m, 0.5)) @ np.asarray(phi._value).ravel()
+        return pf.solveExplicitPDE(phi, c['dte'] * 10.0, rhs)
 
     def noncorner(self):
         sh = self.g.full_shape()
@@ -316,6 +324,30 @@ def apply_letter(W, L):
             BC = W.real[i].BCs
         new = pf.CellVariable(W.m, np.array(vals, copy=True), BC)
         W.add_var(vals, W.mod[i]['rec'], new, slot)
+    elif name == 'explicit-keep':
+        # explicit step whose INPUT variable stays alive: the result (which shares the input's BC object, by construction of
+        # solveExplicitPDE) goes to another slot; the old variable must remain fully usable
+        _, i, slot = L
+        if slot == i:
+            slot = (i + 1) % 3
+        old = W.real[i]
+        fr = W.fresh(i, 'bc-passed')
+        with np.errstate(all='ignore'):
+            res = W.explicit_local(old)
+            fres = W.explicit_local(fr)
+        mask = W.noncorner()
+        a, b = np.asarray(res._value, dtype=float), np.asarray(fres._value, dtype=float)
+        if not np.all(np.isfinite(b[mask])):
+            raise Fail('__inconclusive__', 'fresh explicit step non-finite')
+        scale = float(np.max(np.abs(b[mask]))) + 1e-300
+        if not np.all(np.isfinite(a[mask])) or float(np.max(np.abs(a - b)[mask])) / scale > 1e-11:
+            raise Fail('stale/explicit', 'explicit step (input kept alive) differs from a fresh start')
+        W.solves += 1
+        if W.mirror:
+            BCnew = copy.deepcopy(old.BCs)
+            res.BCs = BCnew
+            W.groups.setdefault(W.mod[i]['rec'], [old.BCs]).append(BCnew)
+        W.add_var(np.array(np.asarray(res.value), copy=True), W.mod[i]['rec'], res, slot)
     elif name == 'apply':
         W.real[L[1]].apply_BCs()
     elif name in ('solve', 'explicit'):
@@ -396,9 +428,11 @@ def random_letter(rng, W, allow_share=True):
         return ('share', i, slot, np.round(rng.normal(0, 1, g.dims), 3))
     if r < 0.88:
         return ('apply', i)
-    if r < 0.96:
+    if r < 0.95:
         return ('solve', i)
-    return ('explicit', i)
+    if r < 0.98:
+        return ('explicit', i)
+    return ('explicit-keep', i, int(rng.integers(0, 3)))
 
 
 def reduced_alphabet(g, cls):
@@ -407,7 +441,7 @@ def reduced_alphabet(g, cls):
     A = [('bc', 0, 'left', 'c', 'assign', 0.7), ('bc', 0, 'right', 'a', 'elem', 0.4), ('util', 0, 'right', 'fixedValue', (1.5,)),
          ('util', 0, 'left', 'newtonCooling', (1.0, 2.0, 0.5, True)), ('value', 0, 'scalar', 0.3), ('value', 0, 'slice', 2.0), ('value', 0, 'iadd', 1.0),
          ('copy', 0, 1), ('share', 0, 1, np.full(g.dims, 0.25)), ('arith', 'mulscalar', 0, 0, 1), ('apply', 0), ('solve', 0), ('explicit', 0),
-         ('update_value', 0, 1), ('bc', 1, 'left', 'c', 'assign', -0.6), ('solve', 1)]
+         ('update_value', 0, 1), ('bc', 1, 'left', 'c', 'assign', -0.6), ('solve', 1), ('explicit-keep', 0, 1)]
     if AXKIND[cls][k0] in ('len', 'ang'):
         A.append(('periodic', 0, [SIDES[k0][0]], True))
         A.append(('periodic', 0, list(SIDES[k0]), False))
@@ -416,6 +450,8 @@ def reduced_alphabet(g, cls):
 
 def valid(L, nv):
     idx = [L[1]] if L[0] not in ('arith',) else [L[2], L[3]]
+    if L[0] == 'explicit-keep' and L[2] > nv:
+        return False
     if L[0] == 'update_value':
         idx.append(L[2])
     return all(i < nv for i in idx)
@@ -490,7 +526,7 @@ def run_case(case):
             if not valid(L, nlive):
                 continue
             letters.append(L)
-            if L[0] in ('copy', 'arith', 'share'):
+            if L[0] in ('copy', 'arith', 'share', 'explicit-keep'):
                 slot = L[-1] if L[0] != 'share' else L[2]
                 if slot >= nlive:
                     nlive += 1
@@ -507,7 +543,7 @@ def run_case(case):
     if fail.mech == '__inconclusive__':
         return {'verdict': 'inconclusive', 'key': key, 'msg': fail.msg, 'cov': cov, 'nontrivial': False}
     mech = fail.mech
-    if any(L[0] == 'share' for L in done):
+    if any(L[0] in ('share', 'explicit-keep') for L in done):
         # discriminating condition of the known finding: same history with sharing replaced by deep-copy-and-mirror passes
         fail2, W2, _ = run_history(cls, faces, coef, letters, mirror=True)
         if fail2 is None:
@@ -556,7 +592,7 @@ def floors(agg, tier):
     for k, need in (('histories:exhaustive', 3000), ('histories:random', 200), ('solve_comparisons', 5000), ('visible_state_checks', 10000)):
         if agg['cov'].get(k, 0) < need:
             out.append('%s < %d' % (k, need))
-    for nm in ('bc', 'fixedValue', 'fixedGradient', 'newtonCooling', 'defaultNoFlux', 'periodic', 'value', 'update_value', 'copy', 'arith', 'share', 'apply', 'solve', 'explicit'):
+    for nm in ('bc', 'fixedValue', 'fixedGradient', 'newtonCooling', 'defaultNoFlux', 'periodic', 'value', 'update_value', 'copy', 'arith', 'share', 'apply', 'solve', 'explicit', 'explicit-keep'):
         if agg['cov'].get('letter:' + nm, 0) < 5:
             out.append('letter:%s < 5' % nm)
     return out
